@@ -138,6 +138,7 @@ REQUIRED = {
 
 
 def T3(ctx, mods=None):
+    """Required conflicts: every non-commuting pair of the hand-written commutation table of the primitive is dependent; the action try_recv branches with is dependent with sends."""
     prog = ctx.prog
     for mod in (mods or KINDS):
         t = dependence_table(ctx, mod)
@@ -321,6 +322,7 @@ def dispatch_exhaustive(ctx, rule, disp_fn, method, required_mods=None):
 
 
 def T5(ctx):
+    """Dispatch exhaustiveness: object::Store::{last_dependent_access,set_last_access} have an arm for every object kind defining them, on the matching Entry variant."""
     n = dispatch_exhaustive(ctx, "T5", "last_dependent_access", "last_dependent_access")
     n += dispatch_exhaustive(ctx, "T5", "set_last_access", "set_last_access")
     ctx.floor("T5", n, 14, "7 + 7 object kinds")
